@@ -12,6 +12,17 @@ from props.C06 import module_src, gen_graph, TYPES, MODS, mod, idx_of
 IMPORTS = 'From Tranp Require Import Model.Cache.'
 
 
+# modules whose symbols refer to classes of the same module before they are declared, inside type arguments
+FORWARD = {
+    'm1': ("from typing import Generic, TypeVar\n\nT = TypeVar('T')\n\n\nclass Box(Generic[T]):\n\tv: T\n\n\tdef __init__(self, v: T) -> None:\n\t\tself.v = v\n\n\n"
+           "class Shelf:\n\tdef first(self) -> 'Box[Item]':\n\t\treturn Box(Item(1))\n\n\tdef all(self) -> 'list[Item]':\n\t\treturn [Item(2)]\n\n\n"
+           "class Item:\n\tn: int\n\n\tdef __init__(self, n: int) -> None:\n\t\tself.n = n\n"),
+    # (repaired defect) a generic class referred to with type arguments above its own declaration and that of its type variable
+    'm3': "from typing import Generic, TypeVar\n\n\ndef early(a: 'G[int]') -> None: ...\n\n\nU = TypeVar('U')\n\n\nclass G(Generic[U]):\n\tv: U\n",
+    'm2': "from proj.m1 import Shelf\n\n\ndef use() -> int:\n\treturn Shelf().first().v.n\n",
+}
+
+
 def snapshot_outputs(p):
     return {f: c for f, (c, _) in p.outputs().items()}
 
@@ -181,6 +192,36 @@ def run(ctx: Ctx) -> None:
                'Fixpoint lle (a b : list (list (nat * bool))) : bool := match a, b with [], [] => true | x :: a2, y :: b2 => le x y && lle a2 b2 | _, _ => false end.\n')
     ctx.correspond('cache_entries_changed', IMPORTS, 'nat * (nat -> list nat) * list (op nat) * list (list (nat * bool))',
                    'fun c => match c with (n, imp, h, w) => lle (obs n imp st0 h) w end', ccases, craw, prelude, shard=40)
+
+    # ---- forward references in type arguments: the stored symbol table has to be restorable in file order ----
+    proj_dir = os.path.join(root, 'c05_fwd')
+    p = cli.Project(proj_dir, output_dirs=['./out'])
+    for name, src in FORWARD.items():
+        p.edit(name, src, step=0)
+    hist = []
+    for step in ('run', 'run', 'edit-importer', 'run'):
+        if step == 'edit-importer':
+            p.edit('m2', FORWARD['m2'] + '# edit\n', step=1.5)
+            hist.append(('edit', 'm2'))
+            continue
+        r = p.run(force=True)
+        hist.append(('run',))
+        warm = snapshot_outputs(p)
+        cold_dir = proj_dir + '_cold'
+        shutil.rmtree(cold_dir, ignore_errors=True)
+        q = cli.Project(cold_dir, output_dirs=['./out'])
+        for name in FORWARD:
+            shutil.copy(p.path(name), q.path(name))
+        rc = q.run(force=True)
+        cold = snapshot_outputs(q)
+        shutil.rmtree(cold_dir, ignore_errors=True)
+        ctx.evaluations += 1
+        ctx.count('forward-references')
+        if (r[0], warm if r[0] == 'ok' else None) != (rc[0], cold if rc[0] == 'ok' else None):
+            ctx.violation('warm-differs-from-cold:forward-reference', 'with the left-over caches the run ends %s, with an empty cache directory %s (modules with forward references inside type arguments)' % (r[0], rc[0]),
+                          dict(history=hist, sources=FORWARD, oracle_result=rc[:1], impl_result=list(r)))
+            break
+    shutil.rmtree(proj_dir, ignore_errors=True)
 
     # ---- truncated cache files ----
     proj_dir = os.path.join(root, 'c05_trunc')
